@@ -646,6 +646,14 @@ reg_entry_is_in_memory(RegisterTable *t, RegisterEntry *e)
 static inline RegisterAccess
 reg_read_entry(RegisterEntry *e, RegisterAtom *buf)
 {
+    if (e->area->read == NULL) {
+        /* A write-only area without read function: Its content cannot be
+         * inspected. */
+        RegisterAccess rv = REG_ACCESS_RESULT_INIT;
+        rv.code = REG_ACCESS_IO_ERROR;
+        rv.address = e->address;
+        return rv;
+    }
     return e->area->read(e->area, buf, e->offset, rds_size[e->type]);
 }
 
@@ -1188,6 +1196,12 @@ register_get(RegisterTable *t, RegisterHandle idx, RegisterValue *v)
 
     e = &t->entry[idx];
     a = e->area;
+    if (a->read == NULL) {
+        /* A write-only area without read function. */
+        rv.code = REG_ACCESS_IO_ERROR;
+        rv.address = e->address;
+        return rv;
+    }
     rv = a->read(a, raw, e->offset, rds_size[e->type]);
     if (rv.code != REG_ACCESS_SUCCESS) {
         return rv;
